@@ -159,7 +159,12 @@ func genKeyTable() string {
 	rows = append(rows, row{"hkTrue", firstByteLit(findVar(bf, "hkTrue"), hk)})
 	rows = append(rows, row{"hkFalse", firstByteLit(findVar(bf, "hkFalse"), hk)})
 	rows = append(rows, row{"appendKey(type)", firstWriteBytes(findFunc(tf, "", "appendKey"), 2, hk)})
-	rows = append(rows, row{"appendElementKey(string)", firstWriteBytes(findFunc(tf, "", "appendElementKey"), 2, hk)})
+	// the mark of a string element: written by appendElementKey itself, or by the helper that computes the element key
+	ekf := findFunc(tf, "", "elementKey")
+	if ekf == nil {
+		ekf = findFunc(tf, "", "appendElementKey")
+	}
+	rows = append(rows, row{"appendElementKey(string)", firstWriteBytes(ekf, 2, hk)})
 	b.WriteString("\n/-- the leading constant bytes of each key -/\ndef keyHeads : List (String × List Nat) := [\n")
 	for i, r := range rows {
 		xs := make([]string, len(r.bytes))
